@@ -210,7 +210,7 @@ class Engine(object):
         elif kind == "script":
             self._script(rec, step[1], step[2])
         elif kind == "event":
-            self._event(rec, step[1])
+            self._event(rec, step[1], step[2] if len(step) > 2 else None)
         else:
             raise ValueError("unknown step kind %r" % (kind,))
         rec["A_after"] = self.A.snapshot()
@@ -356,9 +356,9 @@ class Engine(object):
         if expect:
             self._close(rec, "script")
 
-    def _event(self, rec, name):
+    def _event(self, rec, name, payload=None):
         rec.update(cmd="event %s" % name, event=name)
-        self.driver.event(name)
+        self.driver.event(name, payload)
         if name == "PrintStarted":
             self.active = True
             self.enabled = True
